@@ -272,6 +272,28 @@ pub fn drive_c06(a: &Args) {
             }
         }
     }
+    // HEAVY subjects: the sum of the code points passes 2^32 (21846 copies of the last character) and 2^31 - an
+    // aggregate over the characters (sum, weight, checksum) kept in a machine word wraps or traps here and nowhere below
+    // (search functions only, one subject: the validator walks these 21848 characters for every record)
+    {
+        let mut s: Vec<u32> = vec![MAX_CHAR; 21846];
+        s.extend([la, lb]);
+        let ss = mk(&s);
+        for t in [vec![MAX_CHAR], vec![la, lb]] {
+            let ts = mk(&t);
+            let mut m = ev("contains");
+            m.insert("s".into(), json!(s));
+            m.insert("t".into(), json!(t));
+            bool_result(&mut m, guarded(|| str_contains(&ss, &ts)));
+            out.emit(Value::Object(m));
+            let mut m = ev("replace");
+            m.insert("s".into(), json!(s));
+            m.insert("t".into(), json!(t));
+            m.insert("u".into(), json!([0x78]));
+            seq_result(&mut m, guarded(|| str_replace(&ss, &ts, &mk(&[0x78]))));
+            out.emit(Value::Object(m));
+        }
+    }
     // long subjects over a RICH alphabet (64 code points from all planes): search algorithms with per-character
     // tables (skip tables, hashed or truncated indices) only show their flaws when many distinct characters meet
     {
@@ -674,6 +696,18 @@ pub fn drive_c08(a: &Args) {
                 t.extend(ds[j..].iter());
                 out.emit(parse_event(&t));
             }
+        }
+    }
+    // a backslash followed by ANY printable ASCII character (the escape letters of other languages: x, U, n, t, 0, ...)
+    // and then what would be the payload of an escape there: only `\u` is an escape
+    for c in (0x20u32..0x7F).chain([0xE9, 0x2028]) {
+        for payload in [vec![], vec![52], vec![52, 49], vec![48, 52, 49], vec![48, 48, 52, 49], vec![123, 52, 49, 125], vec![48, 48, 48, 48, 48, 48, 52, 49]] {
+            if c == 117 && !payload.is_empty() {
+                continue; // the real escapes are covered above
+            }
+            let mut t = vec![92, c];
+            t.extend(payload.iter());
+            out.emit(parse_event(&t));
         }
     }
     // two consecutive escape attempts: a malformed one (with digits already read) followed by a
